@@ -20,7 +20,7 @@ ITEM = {"t":TOK,"d":DATA,"c":null|{"t":TOK,"v":CV-dict}} (+ "pass":b on output o
 TOK  = n (source object) | {"made":[TOK,k]}
 DATA = {"k":"int","v":i} | {"k":"str","v":s} | {"k":"text","kind":s,"src":TOK,"lines":n}
      | {"k":"other","cls":s,"id":n,"iter":b} | {"k":"seq","tuple":b,"items":[DATA,…]} | {"k":"writable","id":n}
-     | {"k":"rows","id":n,"rk":"ok"|"empty"|"notiter","upd":b} | {"k":"hist","id":n,"dim":n,"shape":[n,…],"bin":kind}
+     | {"k":"rows","id":n,"rk":"ok"|"empty"|"notiter"|"notcallable","upd":b} | {"k":"hist","id":n,"dim":n,"shape":[n,…],"bin":kind}
      | {"k":"graph","src":TOK,"n":n}
 CV   = null | bool | int | string | {"l":[CV,…]} | {"d":[[key,CV],…]} | {"o":tag}
 FS   = {"files":[[path,CONTENT,mtime],…],"dirs":[s,…],"clock":n}
@@ -115,6 +115,7 @@ partial def toData (j : Json) : Option Data :=
       | some "ok" => some .ok
       | some "empty" => some .empty
       | some "notiter" => some .notIterable
+      | some "notcallable" => some .notCallable
       | _ => none
     match nat? (getD j "id"), rk, bool? (getD j "upd") with
     | some n, some rk, some u => some (.rows n rk u)
@@ -139,7 +140,7 @@ partial def ofData : Data → Json
   | .writable n => Json.mkObj [("k", "writable"), ("id", ofNat n)]
   | .rows n rk u =>
     Json.mkObj [("k", "rows"), ("id", ofNat n),
-      ("rk", Json.str (match rk with | .ok => "ok" | .empty => "empty" | .notIterable => "notiter")),
+      ("rk", Json.str (match rk with | .ok => "ok" | .empty => "empty" | .notIterable => "notiter" | .notCallable => "notcallable")),
       ("upd", Json.bool u)]
   | .hist h =>
     Json.mkObj [("k", "hist"), ("id", ofNat h.id), ("dim", ofNat h.dim), ("shape", ofList ofNat h.shape),
@@ -225,26 +226,6 @@ def ofErr : Option Exc → Json
 
 /-! ### selectors and inner sequences (the menus the harness instantiates on the Python side) -/
 
-/-- the class name `Selector(cls)` tests with `isinstance(get_data(val), cls)` -/
-def dataCls : Data → String
-  | .int _ => "int"
-  | .str _ => "str"
-  | .text _ _ _ => "str"
-  | .other c _ _ => c
-  | .seq true _ => "tuple"
-  | .seq false _ => "list"
-  | .writable _ => "Writable"
-  | .rows _ _ _ => "Rows"
-  | .hist _ => "histogram"
-  | .graph _ _ => "graph"
-
-inductive SelSpec where
-  | cls (name : String)
-  | key (k : String)
-  | or (l : List SelSpec)
-  | and (l : List SelSpec)
-  | const (b : Bool)
-
 partial def toSel (j : Json) : Option SelSpec :=
   match j.getObjVal? "cls", j.getObjVal? "key", j.getObjVal? "or", j.getObjVal? "and", j.getObjVal? "const" with
   | .ok c, _, _, _, _ => (str? c).map SelSpec.cls
@@ -254,74 +235,39 @@ partial def toSel (j : Json) : Option SelSpec :=
   | _, _, _, _, .ok b => (bool? b).map SelSpec.const
   | _, _, _, _, _ => none
 
-partial def evalSel : SelSpec → Item → Bool
-  | .cls n, v => dataCls v.data == n
-  | .key k, v => hasKey v.dict k
-  | .or l, v => l.any (fun s => evalSel s v)
-  | .and l, v => l.all (fun s => evalSel s v)
-  | .const b, _ => b
-
-/-- the state the inner sequences of `RunIf` / `MapGroup` may use: the file system and a counter -/
-structure World where
-  fs : FS
-  n : Nat
-
-def asInner {σ : Type} (f : σ → Item → Step σ Item) (s : σ) (xs : List Item) : Step σ Item :=
-  let r := loop f s xs
-  ⟨r.out, r.st, r.err⟩
-
-/-- a fresh list `[a, data]` made from `v` (never a `(data, context)` pair) -/
-def numbered (v : Item) (a : Nat) : Item := ⟨.made v.tok 500, .seq false [.int a, v.data], none⟩
-
-def numberAll : Nat → List Item → List Item
-  | _, [] => []
-  | i, v :: vs => numbered v i :: numberAll (i + 1) vs
-
+/-- the inner sequences are `Model/C10.lean`: `innerApply`; here only the names are parsed -/
 def innerOf (j : Json) : Option (World → List Item → Step World Item) :=
-  match str? j with
-  | some "id" => some (fun w xs => ⟨xs, w, none⟩)
-  | some "dup" => some (fun w xs => ⟨xs.flatMap (fun v => [v, v]), w, none⟩)
-  | some "drop" => some (fun w _ => ⟨[], w, none⟩)
-  | some "number" => some (fun w xs => ⟨numberAll 0 xs, w, none⟩)
-  | some "first" => some (fun w xs => ⟨xs.take 1, w, none⟩)
-  | some "count" => some (fun w xs => ⟨numberAll w.n xs, { w with n := w.n + xs.length }, none⟩)
-  | some "raise" => some (fun w _ => ⟨[], w, some (.inner 1)⟩)
-  | some "yieldraise" => some (fun w xs => ⟨xs.take 1, w, some (.inner 2)⟩)
-  | some "dupeven" => some (fun w xs => ⟨xs.flatMap (fun v =>
-      match v.data with
-      | .int i => if i % 2 == 0 then [v, v] else [v]
-      | _ => [v]), w, none⟩)
-  | some "last" => some (fun w xs =>
-      match xs.getLast? with
-      | some v => ⟨[numbered v xs.length], w, none⟩
-      | none => ⟨[], w, none⟩)
-  | _ =>
-    let e := getD j "write"
-    match str? (getD e "outdir"), str? (getD e "defname"), bool? (getD e "eu"), bool? (getD e "ow") with
-    | some od, some dn, some eu, some ow =>
-      some (fun w xs =>
-        let r := asInner (writeStep ⟨od, dn, eu, ow⟩) w.fs xs
-        ⟨r.out, { w with fs := r.st }, r.err⟩)
-    | _, _, _, _ => none
-
-/-- a new `(data, {"k": 1})` pair made from the cell -/
-def withCtx (v : Item) : Item := ⟨.made v.tok 500, v.data, some ⟨.made v.tok 501, [("k", .int 1)]⟩⟩
+  let kind : Option InnerKind :=
+    match str? j with
+    | some "id" => some .id
+    | some "dup" => some .dup
+    | some "drop" => some .drop
+    | some "number" => some .number
+    | some "first" => some .first
+    | some "count" => some .count
+    | some "raise" => some .raise
+    | some "yieldraise" => some .yieldraise
+    | some "dupeven" => some .dupeven
+    | some "last" => some .last
+    | _ =>
+      let e := getD j "write"
+      match str? (getD e "outdir"), str? (getD e "defname"), bool? (getD e "eu"), bool? (getD e "ow") with
+      | some od, some dn, some eu, some ow => some (.write ⟨od, dn, eu, ow⟩)
+      | _, _, _, _ => none
+  kind.map innerApply
 
 def cellInnerOf (j : Json) : Option (Item → CellRes) :=
-  match str? j with
-  | some "id" => some (fun v => ([v], none))
-  | some "dup" => some (fun v => ([v, v], none))
-  | some "drop" => some (fun _ => ([], none))
-  | some "dupfirst" => some (fun v =>
-      match v.data with
-      | .int 0 => ([v, v], none)
-      | .hist h => if h.id % 100 == 1 then ([v, v], none) else ([v], none)
-      | .seq _ (.int 0 :: _) => ([v, v], none)
-      | _ => ([v], none))
-  | some "raise" => some (fun _ => ([], some (.inner 1)))
-  | some "yieldraise" => some (fun v => ([v], some (.inner 2)))
-  | some "ctx" => some (fun v => ([withCtx v], none))
-  | _ => none
+  let kind : Option CellInnerKind :=
+    match str? j with
+    | some "id" => some .id
+    | some "dup" => some .dup
+    | some "drop" => some .drop
+    | some "dupfirst" => some .dupfirst
+    | some "raise" => some .raise
+    | some "yieldraise" => some .yieldraise
+    | some "ctx" => some .ctx
+    | _ => none
+  kind.map cellInnerApply
 
 def binSel (j : Json) : Option (BinKind → Bool) :=
   match (arr? j).bind (fun a => a.toList.mapM (fun x => (str? x).bind toBinKind)) with
@@ -340,7 +286,7 @@ def sameBlocks (a b : List (List Item)) : Bool := (ofBlocks a).compress == (ofBl
 /-- run on the interleaved flow and on the selected values alone; `pred` is the right-hand side of the
 interleaving law, `sel` the selection predicate on every value of the interleaved flow -/
 def both {σ : Type} (run : σ → List Item → Run σ Item) (sel : Item → Bool) (getFS : σ → FS) (s : σ)
-    (p : List Bool) (A B : List Item) : Json :=
+    (p : List Bool) (A B : List Item) (doc : Option (Item → Bool) := none) : Json :=
   let flow := merge p A B
   let r := run s flow
   let rA := run s A
@@ -351,6 +297,12 @@ def both {σ : Type} (run : σ → List Item → Run σ Item) (sel : Item → Bo
     ("pickA_ok", Json.bool (sameBlocks (pick true p r.blocks) rA.blocks)),
     ("pickB", ofList (ofList (fun v => ofTok v.tok)) (pick false p r.blocks)),
     ("sel", ofList Json.bool (flow.map sel)),
+    -- the documented selection rule (`…Doc`), where the element has one of its own
+    ("seldoc", match doc with
+      | some d => ofList Json.bool (flow.map d)
+      | none => Json.null),
+    -- how many unselected values the law lets through (`consumedB`)
+    ("consumed", ofNat (consumedB rA.err.isSome p rA.blocks.length)),
     ("ispattern", Json.bool (decide (p.count true = A.length ∧ p.count false = B.length)))]
 
 def toSched (j : Json) : Option Sched :=
@@ -373,16 +325,14 @@ def itemList? (j : Json) : Option (List Item) := (arr? j).bind (fun a => a.toLis
 /-- `{"k":"tocsv","dup":b,"header":b}` (defaults: `duplicate_last_bin=True`, no header) -/
 def csvCfg (el : Json) : CsvCfg := ⟨(bool? (getD el "dup")).getD true, (bool? (getD el "header")).getD false⟩
 
-/-- `select_template` given as a callable: the menu of the harness -/
+/-- `select_template` given as a callable (`Model/C10.lean`: `selTemplateApply`) -/
 def selTemplateOf (j : Json) : Option (Option (Item → Except Exc String)) :=
   if j.isNull then some none else
   match str? j with
-  | some "t2" => some (some (fun _ => .ok "t2.tex"))
-  | some "bycls" => some (some (fun v => .ok (match v.data with
-      | .int _ => "t1.tex"
-      | _ => "t2.tex")))
-  | some "missing" => some (some (fun _ => .ok "missing.tex"))
-  | some "raise" => some (some (fun _ => .error (.inner 1)))
+  | some "t2" => some (some (selTemplateApply .t2))
+  | some "bycls" => some (some (selTemplateApply .bycls))
+  | some "missing" => some (some (selTemplateApply .missing))
+  | some "raise" => some (some (selTemplateApply .raise))
   | _ => none
 
 def renderCfgOf (el : Json) : Option RenderCfg :=
@@ -483,20 +433,13 @@ def handleSecond (el : Json) (w0 : World) (p : List Bool) (A B : List Item) (p2 
       ("pickB", ofList (ofList (fun v => ofTok v.tok)) (pick false p r1.blocks))]
   | none => err "bad element for second mode"
 
-/-- `group_by` given as a callable: the menu of the harness -/
+/-- `group_by` given as a callable (`Model/C10.lean`: `keyApply`) -/
 def keyOf (j : Json) : Option (Item → Except Exc String) :=
   match str? j with
-  | some "parity" => some (fun v => match v.data with
-      | .int i => .ok (if i % 2 == 0 then "k0" else "k1")
-      | .other "float" _ _ => .error .unmodelled
-      | _ => .error .typeError)
-  | some "cls" => some (fun v => .ok (dataCls v.data))
-  | some "ctxn" => some (fun v => match lookup v.dict "n" with
-      | some (.int i) => .ok (toString i)
-      | some (.str s) => .ok s
-      | some _ => .error .unmodelled
-      | none => .error .keyError)
-  | some "const" => some (fun _ => .ok "all")
+  | some "parity" => some (keyApply .parity)
+  | some "cls" => some (keyApply .cls)
+  | some "ctxn" => some (keyApply .ctxn)
+  | some "const" => some (keyApply .const)
   | _ => none
 
 def trunJson (fs : FS) (r : TRun Groups Item) : Json :=
@@ -545,38 +488,56 @@ def handle (j : Json) : Json :=
       | _, _, _ => none
     if (bool? (getD j "shared")).getD false then handleShared el w0 p A B
     else if str? (getD el "k") == some "groupplots" then handleGroupPlots el fs p A B second
-    else if let some (p2, A2, B2) := second then handleSecond el w0 p A B p2 A2 B2
+    else if second.isSome && str? (getD el "k") != some "pdf" then
+      match second with
+      | some (p2, A2, B2) => handleSecond el w0 p A B p2 A2 B2
+      | none => err "unreachable"
     else
     match str? (getD el "k") with
-    | some "tocsv" => both (toCSVRun (csvCfg el)) toCSVSel id fs p A B
+    | some "tocsv" => both (toCSVRun (csvCfg el)) toCSVSel id fs p A B (some toCSVDoc)
     | some "write" =>
       match str? (getD el "outdir"), str? (getD el "defname"), bool? (getD el "eu"), bool? (getD el "ow") with
-      | some od, some dn, some eu, some ow => both (writeRun ⟨od, dn, eu, ow⟩) writeSel id fs p A B
+      | some od, some dn, some eu, some ow => both (writeRun ⟨od, dn, eu, ow⟩) writeSel id fs p A B (some writeDoc)
       | _, _, _, _ => err "bad write spec"
     | some "render" =>
       match renderCfgOf el with
       | some cfg => both (renderRun cfg) (renderSel cfg) id fs p A B
+          (if cfg.selectData.isNone then some renderDoc else none)
       | none => err "bad render spec"
     | some "png" =>
       match str? (getD el "format"), bool? (getD el "ow") with
-      | some f, some ow => both (pngRun ⟨f, ow⟩) pngSel id fs p A B
+      | some f, some ow => both (pngRun ⟨f, ow⟩) pngSel id fs p A B (some pngDoc)
       | _, _ => err "bad png spec"
     | some "pdf" =>
       match bool? (getD el "ow"), toSched (getD el "sched") with
       | some ow, some sch =>
         let flow := merge p A B
         let r := pdfRun ow sch fs flow
-        Json.mkObj [("flow", ofList (fun v => ofTok v.tok) flow), ("run", pdfJson r),
+        let st0 : PdfSt := ⟨fs, [], 0, 0⟩
+        -- the element object used for a second flow (`pdfRunFrom`: pool and launch counter survive)
+        let secondJ : List (String × Json) :=
+          match second with
+          | none => []
+          | some (p2, A2, B2) =>
+            let r1 := pdfRunFrom ow sch st0 flow
+            let a1 := pdfRunFrom ow sch st0 A
+            [("run2", pdfJson (pdfRunFrom ow sch r1.2 (merge p2 A2 B2)).1),
+             ("a2", pdfJson (pdfRunFrom ow sch a1.2 A2).1),
+             ("sel2", ofList Json.bool ((merge p2 A2 B2).map pdfSel)),
+             ("from_ok", Json.bool ((pdfJson r1.1).compress == (pdfJson r).compress))]
+        Json.mkObj ([("flow", ofList (fun v => ofTok v.tok) flow), ("run", pdfJson r),
           ("a", pdfJson (pdfRun ow sch fs A)), ("sel", ofList Json.bool (flow.map pdfSel)),
+          ("seldoc", ofList Json.bool (flow.map pdfDoc)),
+          ("specerr", ofErr (pdfSpecErr ow fs (flow.filter pdfSel))),
           -- the reference notions of the theorems about LaTeXToPDF
           ("spec", ofList ofItem (pdfSpec ow sch.rc fs 0 (flow.filter pdfSel))),
           ("keysok", Json.bool (keysOKb [] flow)),
           ("passed", ofList (fun v => ofTok v.tok) (passedOf r.out)),
           -- what the pool still holds when the flow is exhausted is what the drain yields
           ("pending", ofList ofItem (pending sch.rc (loop (pdfStep ow sch) ⟨fs, [], 0, 0⟩ flow).st.pool)),
-          ("prods", ofList ofItem (prodsOf r.out))]
+          ("prods", ofList ofItem (prodsOf r.out))] ++ secondJ)
       | _, _ => err "bad pdf spec"
-    | some "h2g" => both (histToGraphRun (h2gCfgOf el)) histToGraphSel id fs p A B
+    | some "h2g" => both (histToGraphRun (h2gCfgOf el)) histToGraphSel id fs p A B (some histToGraphDoc)
     | some "iterbins" =>
       match binSel (getD el "bins") with
       | some sb => both (iterateBinsRun sb) (iterateBinsSel sb) id fs p A B
@@ -591,7 +552,7 @@ def handle (j : Json) : Json :=
       | _, _ => err "bad runif spec"
     | some "mapgroup" =>
       match innerOf (getD el "inner") with
-      | some inner => both (mapGroupRun inner) mapGroupSel World.fs w0 p A B
+      | some inner => both (mapGroupRun inner) mapGroupSel World.fs w0 p A B (some mapGroupDoc)
       | none => err "bad mapgroup spec"
     | some "pipe" =>
       match (arr? (getD el "stages")).bind (fun a => a.toList.mapM stageOf) with
